@@ -151,11 +151,15 @@ def block(rng: random.Random, depth=0) -> list[str]:
         if fence[0] == "`" and "`" in info:
             info = ""
         body = [rng.choice(["code   here", "", "  indented", "```", "~~~", "> not quote", "- not list", "    deep", "x = \"q\"...", "\ttab", "`` ` ``",
-                           "{% for x in xs %}", "  - {{ x }}", "{% endfor %}", "wait...what 'q'"]) for _ in range(rng.randint(0, 5))]
+                           "{% for x in xs %}", "  - {{ x }}", "{% endfor %}", "wait...what 'q'",
+                           "    ```", "     ````", "\t~~~", "        ~~~~ x", "    ``` "]) for _ in range(rng.randint(0, 5))]
         body = [b for b in body if not (b.strip().startswith(fence[0] * 3) and len(b.strip()) >= len(fence) and set(b.strip()) == {fence[0]})]
         return [fence + info] + body + [fence]
     if r < 0.48:
-        return ["    " + rng.choice(["indented code", "x  y", "- z", "wait...what", "it's \"q\"... done"]) for _ in range(rng.randint(1, 3))]
+        ic = ["    " + rng.choice(["indented code", "x  y", "- z", "wait...what", "it's \"q\"... done", "``` ", "```", "````\t", "~~~ x", " ``` "]) for _ in range(rng.randint(1, 3))]
+        while ic and not ic[-1].strip("` \t~") and ic[-1].rstrip() != ic[-1]:
+            ic[-1] = ic[-1].rstrip()          # trailing whitespace of the last line goes with the document's final strip
+        return ic
     if r < 0.62 and depth < 3:
         ordered = rng.random() < 0.4
         loose = rng.random() < 0.4
@@ -200,7 +204,7 @@ def block(rng: random.Random, depth=0) -> list[str]:
         pad = lambda c: c + Lt.choice(["", "", " ", "   "])  # noqa: E731
         head = "| " + " | ".join(pad(inline(rng, 1, False).replace("|", "/") + (Lt.choice([" ", "  "]) + "w" if Lt.random() < 0 else "")) for _ in range(ncol)) + " |"
         delim = "|" + "|".join(rng.choice(["---", ":--", "--:", ":-:", "-"]) for _ in range(ncol)) + "|"
-        rows = ["| " + " | ".join(rng.choice([inline(rng, 1, False).replace("|", "\\|"), "`a\\|b`", "", "x \\| y"]) for _ in range(ncol)) + " |" for _ in range(rng.randint(0, 3))]
+        rows = ["| " + " | ".join(rng.choice([inline(rng, 1, False).replace("|", "\\|"), "`a\\|b`", "", "x \\| y", "C:\\\\\\|D", "`a\\\\\\|b`", "\\\\\\| z", "<kbd title=\"x\\\\\\|y\">"]) for _ in range(ncol)) + " |" for _ in range(rng.randint(0, 3))]
         return [head, delim] + rows
     if r < 0.80:
         if depth > 0 and "break_in_list" in AVOID:
